@@ -395,3 +395,34 @@ func VerifC11_G3_duplicates() {
 	sym.Assert((err != nil) == (l1 == l2), "C11.G3.rejects-exactly-duplicate-labels")
 	sym.Reach("C11.G3.duplicates")
 }
+
+// C19: detecting output conflicts must not enumerate dependency paths: two targets on top of a ladder
+// (layered complete bipartite graph) that share an output force ancestor sets to be computed
+func VerifC19_T_conflicts_ladder() {
+	depth := 4 + sym.Choice("depth", tier(9, 11))
+	nodes := model.BuildNodeMap{}
+	name := func(d, a int) label.TargetLabel { return label.TL("p", fmt.Sprintf("l%02d_%d", d, a)) }
+	for d := 0; d < depth; d++ {
+		for a := 0; a < 2; a++ {
+			t := &model.Target{Label: name(d, a)}
+			if d > 0 {
+				t.Dependencies = []label.TargetLabel{name(d-1, 0), name(d-1, 1)}
+			}
+			nodes[t.Label] = t
+		}
+	}
+	// two consumers of the last layer that write the same file, ordered by a dependency (no conflict)
+	c1 := &model.Target{Label: label.TL("p", "c1"), Dependencies: []label.TargetLabel{name(depth-1, 0), name(depth-1, 1)}, Outputs: []model.Output{model.NewOutput("file", "out")}}
+	c2 := &model.Target{Label: label.TL("p", "c2"), Dependencies: []label.TargetLabel{c1.Label}, Outputs: []model.Output{model.NewOutput("file", "out")}}
+	// and the first layer writes a file too, so that ordering needs the deep ancestor set
+	nodes[name(0, 0)].(*model.Target).Outputs = []model.Output{model.NewOutput("file", "out")}
+	nodes[c1.Label], nodes[c2.Label] = c1, c2
+	v, e := 2*depth+2, 4*(depth-1)+3
+	s0 := sym.Steps()
+	_, err := BuildGraph(nodes)
+	s1 := sym.Steps()
+	sym.NoteInt("steps-buildgraph", s1-s0)
+	sym.Assert(err == nil, "C19.T4.ordered-conflicting-outputs-accepted-on-ladder")
+	sym.Assert(s1-s0 <= 40*(v+e)*(v+e), "C19.T4.conflict-detection-work-polynomial")
+	sym.Reach("C19.T.conflicts-ladder")
+}
